@@ -50,7 +50,7 @@ def _cases(draw):
     if g.p("_", 0.08):
         # edge probes: inputs a user can type that XML cannot carry as they are; the outcome must be a well-formed result or a rejection
         qs = [n for n, _ in model.walk(form["nodes"]) if n["k"] == "q" and n["c"].get("type", "").split(" ")[0] in ("text", "integer", "note", "select_one")]
-        kind = g.pick(["char", "header", "setting", "namespaces", "name", "instance-xmlns"])
+        kind = g.pick(["char", "header", "setting", "namespaces", "name", "instance-xmlns", "root-name"])
         if kind == "char" and qs:
             n = g.pick(qs)
             cols = [k for k in n["c"] if k.split("::")[0] in ("label", "hint", "constraint_message", "default")] or ["label"]
@@ -73,6 +73,17 @@ def _cases(draw):
             if not any(("${%s}" % old) in s_ or ("#%s}" % old) in s_ for s_ in common.all_strings(form)):
                 n["c"]["name"] = g.pick(EDGE_NAMES)
                 edge = "prefixed-name"
+        elif kind == "root-name":
+            # the form's own name becomes the root element of the primary instance: the same rules as for a question's name
+            nm = g.pick(EDGE_NAMES + [":data", "ex:", "ex:data", "aa:b:c", "1data", "my data"])
+            if g.p("_", 0.5):
+                form.setdefault("settings", {})["name"] = nm
+            else:
+                form.setdefault("args", {})["form_name"] = nm
+            if ":" in nm and g.p("_", 0.6):
+                pre = nm.split(":")[0] or "ex"
+                form.setdefault("settings", {})["namespaces"] = f'{pre}="http://example.com/{pre}"'
+            edge = "root-name"
         elif kind == "header" and qs:
             g.pick(qs)["c"][g.pick(EDGE_HEADERS)] = g.pick(["v", "my tag", "1st", "a<b", "select1", "http://www.w3.org/XML/1998/namespace", "http://x.example/100%"])
             edge = "attribute-header"
